@@ -33,20 +33,14 @@ Definition sv_enabled (s : svstate) (tid : nat) : bool := negb (sv_blocked s tid
     - VWoken: a release handed the unit to a parked Lock call; the real goroutine runs by itself up to its next yield
       point (VSessAdd), or gives the unit back and returns the error when its context has ended.
     - VWait with the context ended: the real goroutine leaves the semaphore's queue by itself and returns the error.
-    - VDsTmRemove []: DestroySession's loop is over (or the session had no locks): the real goroutine just returns, there
-      is no synchronised operation left and hence no yield point; the model's last step VDsTmRemove [] -> VEnd is a pure
-      pc move.
-    - TOLERANCE (pending model update, see harness/svsched/anchors.json): under no_clear_on_disconnect /repo (4d97dcb)
-      checks and deletes the session in ONE critical section (DestroySessionIfEmpty); Model/Sv.v still has the two
-      steps VDsNoClear, VDsDestroy. The second one is forced here, so that the pair is executed back to back and
-      compared as one step. Once VDsNoClear goes straight to VEnd this case never fires. *)
+    (DestroySession returns without a further synchronised step once nothing is left to release: the model goes to VEnd
+    directly ([ds_next]); under no_clear_on_disconnect the check-and-delete is the single step at VDsNoClear. No forced
+    move is needed for either any more.) *)
 Definition sv_forced (cfg : svcfg) (s : svstate) : list nat :=
   omap (λ '(tid, t),
           match st_pc t, st_op t with
           | VWoken, _ => Some tid
           | VWait, _ => match st_cancel t with Some _ => Some tid | None => None end
-          | VDsDestroy, SConnEnd _ => if sc_noclear cfg then Some tid else None
-          | VDsTmRemove [], SConnEnd _ => Some tid
           | _, _ => None
           end) (sv_threads s).
 
@@ -64,6 +58,12 @@ Definition deliveredb (s : svstate) (k : str) : bool :=
 Definition presentableb (s : svstate) (k : str) : bool :=
   forallb (λ '(_, t), negb (is_acq_of k t)) (sv_threads s) || deliveredb s k.
 
+(** the closer (if any) has not yet stopped the network *)
+Definition net_openb (s : svstate) : bool :=
+  forallb (λ '(_, t), match st_op t with
+                      | SShutdown => bool_decide (st_pc t = VShFlag) || bool_decide (st_pc t = VShNet)
+                      | _ => true end) (sv_threads s).
+
 Definition sitem_okb (s : svstate) (it : sitem) : bool :=
   match it with
   | VCall tid op =>
@@ -72,14 +72,22 @@ Definition sitem_okb (s : svstate) (it : sitem) : bool :=
           forallb (λ '(_, t), negb (bool_decide (op_key' (st_op t) = Some k))) (sv_threads s)
           && has_connect sid s && negb (has_connend sid s)
           && match lt with Some t => 0 <=? t | None => true end
-      | SUnlock _ k => presentableb s k
-      | SRenew _ k lt => presentableb s k && (0 <? lt)
+          && net_openb s
+      | SUnlock _ k => presentableb s k && net_openb s
+      | SRenew _ k lt => presentableb s k && (0 <? lt) && net_openb s
       | _ => true
       end
   | VConnect sid => negb (has_connect sid s)
   | VConnEnd sid => has_connect sid s && negb (has_connend sid s)
   | VSignal => negb (has_signal s)
-  | VCancel _ cause => bool_decide (cause = ESrvLockWaitTimeout) || bool_decide (cause = ECtxCanceled)
+  | VCancel tid cause =>
+      (* the wait timeout is consulted only inside lockMgr.Lock *)
+      bool_decide (cause = ECtxCanceled) ||
+      (bool_decide (cause = ESrvLockWaitTimeout) &&
+       match v_thr s !! tid with
+       | Some t => bool_decide (st_pc t = VMgrLock) || bool_decide (st_pc t = VWait) || bool_decide (st_pc t = VWoken)
+       | None => false
+       end)
   | VTick _ | VRun _ => true
   end.
 
@@ -150,30 +158,40 @@ Proof.
   assert (is_acq_of k t' = true) as Hx by (by apply is_acq_of_spec). congruence.
 Qed.
 
+Lemma net_openb_sound s : net_openb s = true → net_open s.
+Proof.
+  unfold net_openb. rewrite forallb_forall. intros H tid t Ht Hop. specialize (H (tid, t)).
+  assert (In (tid, t) (sv_threads s)) as Hin by (apply elem_of_list_In; unfold sv_threads; by apply elem_of_map_to_list).
+  apply H in Hin. simpl in Hin. rewrite Hop in Hin. apply orb_true_iff in Hin as [Hin|Hin]; apply bool_decide_eq_true in Hin; auto.
+Qed.
+
 (** the generator's filter implies the proofs' side condition *)
 Lemma sitem_okb_sound s it : sitem_okb s it = true → sitem_ok s it.
 Proof.
   destruct it as [tid op|tid|tid cause|sid|sid|dt|]; simpl; try done.
   - destruct op as [sid n k z lt|sid n k z lt|n k|n k lt|id|sid|]; try done.
-    + rewrite !andb_true_iff. intros [[[Hf Hc] He] Hlt]. repeat split.
+    + rewrite !andb_true_iff. intros [[[[Hf Hc] He] Hlt] Hnet]. split_and!.
       * intros tid' t' Ht. rewrite forallb_forall in Hf. specialize (Hf (tid', t')).
         assert (In (tid', t') (sv_threads s)) as Hin by (apply elem_of_list_In; unfold sv_threads; by apply elem_of_map_to_list).
         apply Hf in Hin. simpl in Hin. apply negb_true_iff, bool_decide_eq_false in Hin. done.
       * by apply has_connect_sound.
       * by apply (neg_true_iff _ _ (has_connend_sound sid s)).
       * intros t ->. by apply Z.leb_le.
-    + rewrite !andb_true_iff. intros [[[Hf Hc] He] Hlt]. repeat split.
+      * by apply net_openb_sound.
+    + rewrite !andb_true_iff. intros [[[[Hf Hc] He] Hlt] Hnet]. split_and!.
       * intros tid' t' Ht. rewrite forallb_forall in Hf. specialize (Hf (tid', t')).
         assert (In (tid', t') (sv_threads s)) as Hin by (apply elem_of_list_In; unfold sv_threads; by apply elem_of_map_to_list).
         apply Hf in Hin. simpl in Hin. apply negb_true_iff, bool_decide_eq_false in Hin. done.
       * by apply has_connect_sound.
       * by apply (neg_true_iff _ _ (has_connend_sound sid s)).
       * intros t ->. by apply Z.leb_le.
-    + apply presentableb_sound.
-    + rewrite andb_true_iff. intros [Hp Hlt]. split; [by apply presentableb_sound|by apply Z.ltb_lt].
-  - rewrite orb_true_iff, !bool_decide_eq_true. done.
+      * by apply net_openb_sound.
+    + rewrite andb_true_iff. intros [Hp Hnet]. split; [by apply presentableb_sound|by apply net_openb_sound].
+    + rewrite !andb_true_iff. intros [[Hp Hlt] Hnet]. split_and!; [by apply presentableb_sound|by apply Z.ltb_lt|by apply net_openb_sound].
+  - rewrite orb_true_iff, andb_true_iff, !bool_decide_eq_true. intros [?|[-> H]]; [by left|right]. split; [done|].
+    destruct (v_thr s !! tid) as [t|]; [|done]. exists t. split; [done|].
+    rewrite !orb_true_iff, !bool_decide_eq_true in H. tauto.
   - by apply (neg_true_iff _ _ (has_connect_sound sid s)).
   - rewrite andb_true_iff. intros [Hc He]. split; [by apply has_connect_sound|by apply (neg_true_iff _ _ (has_connend_sound sid s))].
   - by apply (neg_true_iff _ _ (has_signal_sound s)).
 Qed.
-
